@@ -1,6 +1,9 @@
 package main
 
 import (
+	"bytes"
+	"os"
+	"os/exec"
 	"context"
 	"fmt"
 	"sort"
@@ -105,6 +108,7 @@ type c20Cfg struct {
 	gapUs   int   // pause between two publishes
 	delayUs int   // pause between reaching the stop position and the call of Stop()
 	jitUs   int   // schedule perturbation: pseudo-random pauses up to this long at the yield points (0 = none)
+	pub2    int   // requests a SECOND client connection streams (unflushed) across the Stop() call (0 = none)
 	durs    []int // handler duration per request, in units of 100 µs
 }
 
@@ -113,37 +117,38 @@ func (c c20Cfg) line() string {
 	for i, d := range c.durs {
 		ds[i] = strconv.Itoa(d)
 	}
-	return fmt.Sprintf("nsrun %d %d %d %d %d %d %s", c.w, c.q, c.stopPos, c.gapUs, c.delayUs, c.jitUs, strings.Join(ds, ","))
+	return fmt.Sprintf("nsrun %d %d %d %d %d %d %d %s", c.w, c.q, c.stopPos, c.gapUs, c.delayUs, c.jitUs, c.pub2, strings.Join(ds, ","))
 }
 
 func c20ParseCfg(args []string) (c20Cfg, bool) {
 	var c c20Cfg
-	if len(args) != 7 {
+	if len(args) != 8 {
 		return c, false
 	}
-	var err [6]error
+	var err [7]error
 	c.w, err[0] = strconv.Atoi(args[0])
 	c.q, err[1] = strconv.Atoi(args[1])
 	c.stopPos, err[2] = strconv.Atoi(args[2])
 	c.gapUs, err[3] = strconv.Atoi(args[3])
 	c.delayUs, err[4] = strconv.Atoi(args[4])
 	c.jitUs, err[5] = strconv.Atoi(args[5])
+	c.pub2, err[6] = strconv.Atoi(args[6])
 	for _, e := range err {
 		if e != nil {
 			return c, false
 		}
 	}
-	if c.w < 1 || c.w > 64 || c.q < 0 || c.q > 1024 || c.stopPos < 0 || c.gapUs < 0 || c.gapUs > 100000 || c.delayUs < 0 || c.delayUs > 100000 || c.jitUs < 0 || c.jitUs > 100000 {
+	if c.w < 1 || c.w > 64 || c.q < 0 || c.q > 1024 || c.stopPos < 0 || c.gapUs < 0 || c.gapUs > 100000 || c.delayUs < 0 || c.delayUs > 100000 || c.jitUs < 0 || c.jitUs > 100000 || c.pub2 < 0 || c.pub2 > 500 {
 		return c, false
 	}
-	for _, t := range strings.Split(args[6], ",") {
+	for _, t := range strings.Split(args[7], ",") {
 		d, e := strconv.Atoi(t)
-		if e != nil || d < 0 || d > 1000 {
+		if e != nil || d < 0 || d > 20000 {
 			return c, false
 		}
 		c.durs = append(c.durs, d)
 	}
-	if len(c.durs) == 0 || len(c.durs) > 900 {
+	if len(c.durs) == 0 || len(c.durs) > 400 {
 		return c, false
 	}
 	return c, true
@@ -272,9 +277,14 @@ func c20Execute(cfg c20Cfg) c20Result {
 	}
 	c20InstallHook()
 	n := len(cfg.durs)
-	total := n + c20LateExtras
+	total := n + c20LateExtras + cfg.pub2
 	if total >= 1000 {
 		return fail("burst too long for the id encoding")
+	}
+	// the watchdog allows for the work the configuration asks for: all handler time, sequentially
+	wd := c20Watchdog
+	for _, d := range cfg.durs {
+		wd += time.Duration(d) * 100 * time.Microsecond
 	}
 	stopPos := cfg.stopPos
 	if stopPos > n {
@@ -299,6 +309,13 @@ func c20Execute(cfg c20Cfg) c20Result {
 		return fail("client connection: " + err.Error())
 	}
 	defer cconn.Close()
+	var c2conn *nats.Conn
+	if cfg.pub2 > 0 {
+		if c2conn, err = nats.Connect(url, nats.Name("c20-client2")); err != nil {
+			return fail("second client connection: " + err.Error())
+		}
+		defer c2conn.Close()
+	}
 
 	reqSubject := fmt.Sprintf("c20q.%d", run.idx)
 	replyPrefix := fmt.Sprintf("c20r.%d.", run.idx)
@@ -383,6 +400,57 @@ func c20Execute(cfg c20Cfg) c20Result {
 		run.mu.Unlock()
 		return nil
 	}
+	// the second connection streams requests WITHOUT waiting for the broker, from just before
+	// Stop() is called until it has returned: requests are on the wire while Serve unsubscribes,
+	// flushes and registers its barrier. Whether one of them is accepted is the broker's business;
+	// the oracle only uses what is known (callback started / flushed before Stop, published after).
+	pub2Done := make(chan error, 1)
+	go func() {
+		if cfg.pub2 == 0 {
+			pub2Done <- nil
+			return
+		}
+		<-stopSignal
+		if lead := cfg.delayUs - 300; lead > 0 {
+			time.Sleep(time.Duration(lead) * time.Microsecond)
+		}
+		first := n + c20LateExtras
+		batch := first
+		afterStop := 0
+		for i := first; i < total; i++ {
+			select {
+			case <-stopReturned:
+				afterStop++ // keep a few going after Stop returned as well, then stop streaming
+			default:
+			}
+			if afterStop > 8 {
+				break
+			}
+			run.mu.Lock()
+			run.pubStart[i] = len(run.events)
+			run.mu.Unlock()
+			if err := c2conn.PublishRequest(reqSubject, replyPrefix+strconv.FormatUint(run.idx*1000+uint64(i), 10), c20Frame(i)); err != nil {
+				pub2Done <- err
+				return
+			}
+			if (i-first)%16 == 15 { // now and then learn what the broker has for sure
+				if err := c2conn.Flush(); err != nil {
+					pub2Done <- err
+					return
+				}
+				run.mu.Lock()
+				for k := batch; k <= i; k++ {
+					run.pubFlushed[k] = len(run.events)
+				}
+				run.mu.Unlock()
+				batch = i + 1
+			} else if cfg.pub2%3 == 1 {
+				time.Sleep(10 * time.Microsecond)
+			}
+		}
+		pub2Done <- c2conn.Flush()
+	}()
+
 	pubDone := make(chan error, 1)
 	go func() {
 		if stopPos == 0 {
@@ -402,11 +470,11 @@ func c20Execute(cfg c20Cfg) c20Result {
 		}
 		select {
 		case <-stopReturned:
-		case <-time.After(c20Watchdog + time.Second):
+		case <-time.After(wd + time.Second):
 			pubDone <- nil
 			return
 		}
-		for i := n; i < total; i++ {
+		for i := n; i < n+c20LateExtras; i++ {
 			if err := publish(i); err != nil {
 				pubDone <- err
 				return
@@ -418,7 +486,7 @@ func c20Execute(cfg c20Cfg) c20Result {
 	// watchdog on Stop and Serve
 	var complaints []string
 	<-stopSignalOrTimeout(stopSignal, c20Watchdog)
-	watch := time.After(c20Watchdog)
+	watch := time.After(wd)
 	stopState, serveState := "hung", "hung"
 	var stopErr, serveErr error
 	for stopState == "hung" || serveState == "hung" {
@@ -436,10 +504,10 @@ func c20Execute(cfg c20Cfg) c20Result {
 		}
 	}
 	if stopState == "hung" {
-		complaints = append(complaints, fmt.Sprintf("Stop did not return within %v", c20Watchdog))
+		complaints = append(complaints, fmt.Sprintf("Stop did not return within %v", wd))
 	}
 	if serveState == "hung" {
-		complaints = append(complaints, fmt.Sprintf("Serve did not return within %v", c20Watchdog))
+		complaints = append(complaints, fmt.Sprintf("Serve did not return within %v", wd))
 	}
 	if stopErr != nil {
 		complaints = append(complaints, "Stop returned "+stopErr.Error())
@@ -452,8 +520,16 @@ func c20Execute(cfg c20Cfg) c20Result {
 		if e != nil {
 			return fail("publish: " + e.Error())
 		}
-	case <-time.After(c20Watchdog + 2*time.Second):
+	case <-time.After(wd + 2*time.Second):
 		complaints = append(complaints, "publisher did not finish")
+	}
+	select {
+	case e := <-pub2Done:
+		if e != nil {
+			return fail("second publisher: " + e.Error())
+		}
+	case <-time.After(wd + 2*time.Second):
+		complaints = append(complaints, "second publisher did not finish")
 	}
 	// replies are written into the server connection's buffer; give them time to reach the client
 	expectReplies := func() int64 {
@@ -581,7 +657,42 @@ func c20GenCfg(r *Rng) c20Cfg {
 	c.gapUs = r.Pick(0, 0, 0, 50, 300, 1500)
 	c.delayUs = r.Pick(0, 0, 20, 200, 1000, 4000)
 	c.jitUs = r.Pick(0, 0, 0, 100, 1000, 3000)
+	c.pub2 = r.Pick(0, 0, 40, 120, 300)
 	return c
+}
+
+// c20SlowCfg: the slow-backlog family. Few requests with long handlers, a queue that holds the
+// whole burst, Stop right after the burst was accepted: Stop returns quickly, and Serve has to
+// wait for seconds of worker time AFTER it closed the queue. Shape 0 (the one a quick run
+// executes) drains for 6–7 s; the others 2–3 s, ~10 s, and a queue shorter than the backlog
+// (then it is Stop that waits). Returns the configuration and the nominal drain time in seconds.
+func c20SlowCfg(r *Rng, k int) (c20Cfg, int) {
+	mk := func(w, q, n, durMs int) c20Cfg {
+		c := c20Cfg{w: w, q: q, stopPos: n, delayUs: 2000}
+		for i := 0; i < n; i++ {
+			c.durs = append(c.durs, durMs*10+r.Intn(200)) // + up to 20 ms
+		}
+		return c
+	}
+	switch k % 6 {
+	case 0:
+		switch r.Intn(3) {
+		case 0:
+			return mk(1, 8+r.Intn(8), 8, 800), 6 // 1 worker, 8 x 0.8 s
+		case 1:
+			return mk(2, 16+r.Intn(8), 16, 800), 6 // 2 workers, 16 x 0.8 s
+		}
+		return mk(1, 4+r.Intn(4), 4, 1650), 7 // 1 worker, 4 x 1.65 s
+	case 1:
+		return mk(1, 6, 5, 500), 2 // below any multi-second bound
+	case 2:
+		return mk(2, 12, 10, 1950), 10
+	case 3:
+		return mk(1, 2, 8, 800), 6 // queue shorter than the backlog: Stop itself waits ~4 s
+	case 4:
+		return mk(3, 32, 24, 800), 6
+	}
+	return mk(1, 0, 4, 900), 3 // unbuffered: everything goes through the hand-off
 }
 
 func c20ClassWhy(why string) string {
@@ -600,11 +711,171 @@ func c20ClassWhy(why string) string {
 	return s
 }
 
-func runC20Suite(r *Rng, n int) {
+func c20FastGen(r *Rng) func(int) c20Cfg { return func(int) c20Cfg { return c20GenCfg(r) } }
+
+func c20SlowGen(r *Rng, stat bool) func(int) c20Cfg {
+	return func(k int) c20Cfg {
+		cfg, secs := c20SlowCfg(r, k)
+		if stat {
+			Stat(fmt.Sprintf("slow-backlog:drain~%ds", secs))
+		}
+		return cfg
+	}
+}
+
+// ---------- process isolation ----------
+//
+// A Go panic in a goroutine of the server (e.g. the nats.go callback goroutine sending on the
+// closed workC) kills the whole process and cannot be recovered. The suites therefore run their
+// batch of configurations in a CHILD process (same binary, suite name + "inproc"); when the child
+// dies, the parent regenerates the same configurations from the same seed and runs them one per
+// child to find the ones that kill the server, and reports each as an oracle failure with its
+// replayable `nsrun` line. `nsrun` lines (replay, corpus, shrinking) are always executed in a
+// child of their own (`nsrun1` is the in-process form the child runs).
+
+func c20SeedArg() string {
+	for i, a := range os.Args {
+		if (a == "-seed" || a == "--seed") && i+1 < len(os.Args) {
+			return os.Args[i+1]
+		}
+		if strings.HasPrefix(a, "-seed=") {
+			return a[len("-seed="):]
+		}
+	}
+	return "1"
+}
+
+func c20EmitRaw(text string) {
+	outMu.Lock()
+	defer outMu.Unlock()
+	for _, l := range strings.Split(text, "\n") {
+		if l != "" {
+			fmt.Fprintln(out, l)
+		}
+	}
+}
+
+func c20PanicLine(stderr string) string {
+	for _, l := range strings.Split(stderr, "\n") {
+		if strings.HasPrefix(l, "panic: ") || strings.HasPrefix(l, "fatal error: ") {
+			return strings.TrimSpace(l)
+		}
+	}
+	return ""
+}
+
+func c20Child(timeout time.Duration, args ...string) (stdout, stderr string, err error) {
+	exe, e := os.Executable()
+	if e != nil {
+		return "", "", e
+	}
+	cmd := exec.Command(exe, args...)
+	var so, se bytes.Buffer
+	cmd.Stdout, cmd.Stderr = &so, &se
+	if e := cmd.Start(); e != nil {
+		return "", "", e
+	}
+	done := make(chan error, 1)
+	go func() { done <- cmd.Wait() }()
+	select {
+	case e = <-done:
+	case <-time.After(timeout):
+		cmd.Process.Kill()
+		<-done
+		e = fmt.Errorf("child timed out after %v", timeout)
+	}
+	return so.String(), se.String(), e
+}
+
+// c20Isolated executes one configuration in a child process. It returns the child's real output
+// for the line, or reports the crash of the server process as an oracle failure.
+func c20Isolated(cfg c20Cfg) string {
+	f, err := os.CreateTemp("", "c20-line-*.txt")
+	if err != nil {
+		return "setup-failed"
+	}
+	defer os.Remove(f.Name())
+	fmt.Fprintln(f, "nsrun1"+strings.TrimPrefix(cfg.line(), "nsrun"))
+	f.Close()
+	wd := 3*c20Watchdog + 30*time.Second
+	for _, d := range cfg.durs {
+		wd += 3 * time.Duration(d) * 100 * time.Microsecond
+	}
+	stdout, stderr, cerr := c20Child(wd, "c20", "-lines", f.Name())
+	real := ""
+	for _, l := range strings.Split(stdout, "\n") {
+		switch {
+		case strings.HasPrefix(l, "C\t"):
+			if parts := strings.SplitN(l, "\t", 3); len(parts) == 3 {
+				real = parts[2]
+			}
+		case strings.HasPrefix(l, "O\t"):
+			c20EmitRaw(l)
+		}
+	}
+	if cerr != nil {
+		what := c20PanicLine(stderr)
+		if what == "" {
+			what = cerr.Error()
+		}
+		OracleFail("the process running the server died: "+what, map[string]interface{}{"op": "nsrun", "line": cfg.line(), "got": "crashed"})
+		return "violated crashed"
+	}
+	if real == "" {
+		return "setup-failed"
+	}
+	return real
+}
+
+// c20Parent runs the batch in a child; on a crash it falls back to one child per configuration.
+func c20Parent(inproc string, n int, regen func(k int) c20Cfg) {
+	timeout := time.Duration(n)*500*time.Millisecond + 3*time.Minute
+	stdout, stderr, cerr := c20Child(timeout, inproc, "-seed", c20SeedArg(), "-n", strconv.Itoa(n))
+	if cerr == nil {
+		c20EmitRaw(stdout)
+		return
+	}
+	Stat("batch-child-died")
+	what := c20PanicLine(stderr)
+	if what == "" {
+		what = cerr.Error()
+	}
+	cfgs := make([]c20Cfg, n)
+	for k := range cfgs {
+		cfgs[k] = regen(k)
+	}
+	var wg sync.WaitGroup
+	sem := make(chan struct{}, 8)
+	var found int64
+	for _, cfg := range cfgs {
+		if atomic.LoadInt64(&found) >= 4 {
+			break
+		}
+		cfg := cfg
+		wg.Add(1)
+		sem <- struct{}{}
+		go func() {
+			defer wg.Done()
+			defer func() { <-sem }()
+			real := c20Isolated(cfg)
+			Case(cfg.line(), real)
+			Stat("evaluations")
+			if strings.HasPrefix(real, "violated") {
+				atomic.AddInt64(&found, 1)
+			}
+		}()
+	}
+	wg.Wait()
+	if atomic.LoadInt64(&found) == 0 {
+		OracleFail("the process running the server died: "+what+" (not reproduced by one configuration alone)", map[string]interface{}{"op": "nsrun", "got": "crashed", "seed": c20SeedArg(), "n": n})
+	}
+}
+
+func c20RunConfigs(n int, gen func(k int) c20Cfg) {
 	var wg sync.WaitGroup
 	sem := make(chan struct{}, 8)
 	for k := 0; k < n; k++ {
-		cfg := c20GenCfg(r)
+		cfg := gen(k)
 		wg.Add(1)
 		sem <- struct{}{}
 		go func() {
@@ -622,6 +893,9 @@ func runC20Suite(r *Rng, n int) {
 			}
 			if res.blockd {
 				Stat("callback-blocked-on-full-queue-at-stop")
+			}
+			if cfg.pub2 > 0 {
+				Stat("second-publisher-across-stop")
 			}
 			switch {
 			case cfg.stopPos == 0:
@@ -694,9 +968,19 @@ func c20Projection(trace string) string {
 }
 
 func init() {
-	suites["c20"] = runC20Suite
+	suites["c20"] = func(r *Rng, n int) { c20Parent("c20inproc", n, c20FastGen(r)) }
+	suites["c20slow"] = func(r *Rng, n int) { c20Parent("c20slowinproc", n, c20SlowGen(r, false)) }
+	suites["c20inproc"] = func(r *Rng, n int) { c20RunConfigs(n, c20FastGen(r)) }
+	suites["c20slowinproc"] = func(r *Rng, n int) { c20RunConfigs(n, c20SlowGen(r, true)) }
 	// nsrun: a configuration; executed (up to 3 times, timing varies) against the real server.
 	lineOps["nsrun"] = func(args []string) (string, bool) {
+		cfg, ok := c20ParseCfg(args)
+		if !ok {
+			return "bad-args", true
+		}
+		return c20Isolated(cfg), true
+	}
+	lineOps["nsrun1"] = func(args []string) (string, bool) {
 		cfg, ok := c20ParseCfg(args)
 		if !ok {
 			return "bad-args", true
